@@ -20,7 +20,7 @@ func init() {
 			"D3 at least one location — every Package allocated in code reachable from an extractor's Extract gets a non-empty Locations value at allocation or through a later store in the same function; " +
 			"D4 field-by-field conversion — packageToProto, purlToProto, layerDetailsToProto, sourceCodeIdentifierToProto, qualifiersToProto read every field of their source struct and store each into the like-named destination field; ToCDX and ToSPDX23 write ToPURL(pkg).String() of the same package and ToCDX copies name, version and every location; " +
 			"D5 the package index is keyed by the package URL's own type and name (rule shared with C20-D4); D6 panic discipline (bounds prover, no single-value assertions outside Metadata) over purl, packageindex, converter and binary/proto (generated files excluded). " +
-			"Added in round 3: D7 the formats' audited omissions (empty name/version) are shared from C03. Added in round 7: D9 results of functions believed to return nil sometimes (a constant nil return, or a nil-compared field handed out) are dereferenced only under a != nil test. NOT decided: non-empty names (values), percent-encoding round trip (third-party packageurl-go), SPDX/CDX library behaviour, whether SBOM formats carry locations/layer details verbatim.",
+			"Added in round 3: D7 the formats' audited omissions (empty name/version) are shared from C03. Added in round 7: D9 results of functions believed to return nil sometimes (a constant nil return, or a nil-compared field handed out) are dereferenced only under a != nil test. Added in round 8: D4 additionally: in the proto converters, whether a field is copied depends only on tests of that same source field. NOT decided: non-empty names (values), percent-encoding round trip (third-party packageurl-go), SPDX/CDX library behaviour, whether SBOM formats carry locations/layer details verbatim.",
 		ThoroughGOOS: []string{"linux", "windows", "darwin"},
 		Run:          runC14,
 		Controls: []Mutant{
@@ -57,6 +57,7 @@ func runC14(p *Prog, r *Report) {
 	freshPerIteration(p, r, "D4-conversion", "converter", "ToCDX", "Component")
 	freshPerIteration(p, r, "D4-conversion", "converter", "ToSPDX23", "Package")
 	protoConvertersKeepRecords(p, r, "D4-conversion")
+	copiesDependOnlyOnTheirOwnField(p, r, "D4-conversion", "binary/proto", "purlToProto", "layerDetailsToProto", "sourceCodeIdentifierToProto", "packageToProto")
 	locationCountCases(p, r, "D4-conversion")
 	r.Rule("D8-input-untouched", "the converters do not modify the scan result they convert")
 	inputsNotModified(p, r, "D8-input-untouched", "converter", "binary/proto")
